@@ -9,25 +9,27 @@ import (
 
 // Profile steers the online schedule generator.
 type Profile struct {
-	Name      string         `json:"name"`
-	Comps     []CompSpec     `json:"comps"`
-	CapIncs   []int          `json:"capIncs"`
-	Listener  int            `json:"listener"` // percentage of worlds with a listener
-	Probe     bool           `json:"probe"`
-	Steps     int            `json:"steps"`
-	MaxEnts   int            `json:"maxEnts"`
-	FaultPct  int            `json:"faultPct"`
-	NRes      int            `json:"nres"`
-	Weights   map[string]int `json:"weights"`
-	MaxBatch  int            `json:"maxBatch"`
-	HoldPct   int            `json:"holdPct"`
-	OpenRelOK bool           `json:"openRelOK"` // allow relation filters whose inner filter matches non-relation tables (known finding E17)
-	Sweep     bool           `json:"sweep"`
-	Shape     bool           `json:"shape"`
-	MaxRegs   int            `json:"maxRegs"`
-	MaxOpen   int            `json:"maxOpen"`
-	Twin      string         `json:"twin"`         // "" | "reset" | "load"
-	WeightsB  map[string]int `json:"weightsAfter"` // weights once a "load" twin exists
+	Name         string         `json:"name"`
+	Comps        []CompSpec     `json:"comps"`
+	CapIncs      []int          `json:"capIncs"`
+	Listener     int            `json:"listener"` // percentage of worlds with a listener
+	Probe        bool           `json:"probe"`
+	Steps        int            `json:"steps"`
+	MaxEnts      int            `json:"maxEnts"`
+	FaultPct     int            `json:"faultPct"`
+	NRes         int            `json:"nres"`
+	Weights      map[string]int `json:"weights"`
+	MaxBatch     int            `json:"maxBatch"`
+	HoldPct      int            `json:"holdPct"`
+	OpenRelOK    bool           `json:"openRelOK"` // allow relation filters whose inner filter matches non-relation tables (known finding E17)
+	Sweep        bool           `json:"sweep"`
+	Shape        bool           `json:"shape"`
+	MaxRegs      int            `json:"maxRegs"`
+	MaxOpen      int            `json:"maxOpen"`
+	Twin         string         `json:"twin"`         // "" | "reset" | "load"
+	WeightsB     map[string]int `json:"weightsAfter"` // weights once a "load" twin exists
+	RandListener bool           `json:"randListener"` // random subscription masks / component restrictions
+	DispatchPct  int            `json:"dispatchPct"`  // share of worlds with a listener.Dispatch
 }
 
 type generator struct {
@@ -785,6 +787,19 @@ func (g *generator) next() Op {
 			return Op{Op: "Unregister", Reg: g.pick(live)}
 		case "reset":
 			return Op{Op: "Reset"}
+		case "addlistener":
+			if g.x.disp == nil || len(g.x.subs) >= 6 {
+				continue
+			}
+			l := &LSpec{S: g.rng.Intn(64)}
+			if g.pct(50) {
+				l.HasC = true
+				l.C = g.subset(g.x.compNums, 2)
+				if len(l.C) == 0 {
+					l.C = []int{g.pick(g.x.compNums)}
+				}
+			}
+			return Op{Op: "AddListener", L: l}
 		case "dump":
 			return Op{Op: "Dump"}
 		case "load":
